@@ -88,7 +88,8 @@ def run_cli(argv, stdin_text=None):
     """in-process CLI run -> (status, stdout, stderr)"""
     out, err = io.StringIO(), io.StringIO()
     old = sys.stdin, sys.stdout, sys.stderr
-    sys.stdin = io.StringIO(stdin_text if stdin_text is not None else '')
+    # (a text stream over a byte stream, as the real standard input is: it has a .buffer)
+    sys.stdin = io.TextIOWrapper(io.BytesIO((stdin_text if stdin_text is not None else '').encode('utf-8')), encoding='utf-8', newline='')
     sys.stdout, sys.stderr = out, err
     try:
         try:
@@ -288,7 +289,7 @@ def cli_case(col, rng, tmpdir, watch):
     if rng.random() < 0.06:
         spec = rng.choice([{}, [], ''])     # falsy literal specs are specs like any other ({} -> {}, '' -> the key '')
     empty_spec = rng.random() < 0.12       # no spec text at all: the CLI prints the target itself
-    indent = rng.choice([None, None, 0, 1, 4])
+    indent = rng.choice([None, None, 0, 1, 4, -1, -2])
     scalar = rng.random() < 0.2
     spec_fmt = 'python'
     if rng.random() < 0.2 and to_jsonable_spec(spec) is not None:
@@ -551,6 +552,13 @@ def subprocess_samples(col, rng, tmpdir):
         ('argv', [st, tt], None), ('target-file', ['--target-file', tpath, st], None), ('both-files', ['--target-file', tpath, '--spec-file', spath], None),
         ('stdin-dash', [st, '-'], tt), ('stdin-implicit', [st], tt), ('python-target', ['--target-format', 'python', st, repr(target)], None),
         ('yaml-target', ['--target-format', 'yaml', st, json.dumps(target)], None),
+        # every target format through every way of reading standard input
+        ('stdin-dash-python-target', ['--target-format', 'python', st, '-'], repr(target)), ('stdin-implicit-python-target', ['--target-format', 'python', st], repr(target)),
+        ('stdin-target-file-dash-python-target', ['--target-format', 'python', '--target-file', '-', st], repr(target)),
+        ('stdin-dash-yaml-target', ['--target-format', 'yaml', st, '-'], json.dumps(target)), ('stdin-implicit-yaml-target', ['--target-format', 'yaml', st], json.dumps(target)),
+        ('stdin-dash-toml-target', ['--target-format', 'toml', "{'x': 'a.b.2.c', 'y': 'a.b.0'}", '-'], 'n = 0\n[a]\nb = [1, 2, {c = "héllo"}]\n'),
+        ('stdin-implicit-toml-target', ['--target-format', 'toml', "{'x': 'a.b.2.c', 'y': 'a.b.0'}"], 'n = 0\n[a]\nb = [1, 2, {c = "héllo"}]\n'),
+        ('negative-indent', ['--indent', '-1', st, tt], None), ('zero-indent', ['--indent', '0', st, tt], None), ('indent-4', ['--indent', '4', st, tt], None),
     ]
     e = env.child_env({'PYTHONPATH': env.SRC + os.pathsep + env.VERIF_DIR, 'PYTHONIOENCODING': 'utf-8'})
     for name, argv, stdin in runs:
@@ -562,9 +570,14 @@ def subprocess_samples(col, rng, tmpdir):
             continue
         col.case(('subprocess', name), True)
         col.count('subprocess_runs')
-        if p.returncode != 0 or p.stdout != want:
+        if 'indent' in name:
+            n_ind = int(argv[1])
+            want_here = json.dumps(glom_pkg.glom(target, spec), indent=n_ind or None, sort_keys=True) + '\n'
+        else:
+            want_here = want
+        if p.returncode != 0 or p.stdout != want_here:
             col.violation('C19/subprocess-output-differs:' + name, 'python -m glom %s: status %d stdout %r stderr %r ; expected %r'
-                          % (argv, p.returncode, p.stdout, p.stderr[-300:], want), None)
+                          % (argv, p.returncode, p.stdout, p.stderr[-300:], want_here), None)
     # a producer that starts writing LATE (the command is up and waiting before the first byte arrives) and writes in pieces:
     # standard input is read to its end, whenever the data comes
     import time
